@@ -36,15 +36,22 @@ Candidates(name, scope) ==
 VARIABLES name, scope, sel, rot, str, lst
 vars == <<name, scope, sel, rot, str, lst>>
 
+\* rot = 2: the selected candidates are enums / subints / externs declared as LOCAL TYPES of an interface whose fully
+\* qualified name is the candidate's front (the parser hoists them into the same containers as namespace-level ones)
+LocalKinds == <<"enum", "subint", "extern">>
+Front(s) == SubSeq(s, 1, Len(s) - 1)
 Decls == LET c == Candidates(name, scope) IN
-         {[fqn |-> c[i], kind |-> KindOf(i + rot)] : i \in sel}
+         (IF rot = 2
+          THEN {[fqn |-> c[i], kind |-> LocalKinds[(i % 3) + 1]] : i \in sel}
+               \cup {[fqn |-> Front(c[i]), kind |-> "interface"] : i \in {j \in sel : Len(c[j]) > 1}}
+          ELSE {[fqn |-> c[i], kind |-> KindOf(i + rot)] : i \in sel})
          \cup (IF rot % 2 = 1 THEN {[fqn |-> name, kind |-> "import"], [fqn |-> scope \o name, kind |-> "file-name"]} ELSE {})
 
 Strs == SeqsFromTo(Chars, 0, MaxStr)
 
 Init == IF Mode = "lookup"
         THEN /\ name \in Names /\ scope \in Scopes
-             /\ sel \in SUBSET (1..(Len(scope) + 5)) /\ rot \in 0..1
+             /\ sel \in SUBSET (1..(Len(scope) + 5)) /\ rot \in 0..2
              /\ str = <<>> /\ lst = <<>>
         ELSE IF Mode = "notation"
         THEN /\ str \in Strs /\ lst = <<>> /\ name = <<>> /\ scope = <<>> /\ sel = {} /\ rot = 0
